@@ -43,6 +43,8 @@ var reg = vk.Registry{
 	},
 }
 
+func init() { reg["sequence"] = vk.SequenceReplayer(reg) }
+
 func TestReplay(t *testing.T) { vk.RunReplay(t, reg) }
 
 func TestSelf(t *testing.T) {
@@ -121,7 +123,7 @@ func TestRoundTripPerType(t *testing.T) {
 			}
 			classify(b, v)
 			rec.Sample(b.Spec.Proto, ref.ToJ(b.Spec, v))
-			rec.Report(t, "roundtrip", gen.RoundTrip(b, v))
+			rec.ReportSeq(t, "roundtrip", gen.PCase{Vals: ref.ToJ(b.Spec, v)}, func() *vk.Violation { return gen.RoundTrip(b, v) })
 		}))
 	}
 }
